@@ -62,22 +62,45 @@ def cargo_test(extra=""):
                 demo_failed=demo_failed, other_failed=other_failed, tail=out[-3000:])
 
 
+def demo_run(feats):
+    """run only the demonstration, under the feature set it asks for"""
+    rc, out = sh(f"cargo test --offline -p rcgen {feats} --test demo_mutant 2>&1", cwd=WT, env=ENV)
+    failed = sorted(set(re.findall(r"^test (\S+) \.\.\. FAILED", out, re.M)))
+    passed = len(re.findall(r"^test \S+ \.\.\. ok", out, re.M))
+    compiled = "error: could not compile" not in out and "error[E" not in out
+    return dict(rc=rc, compiled=compiled, passed=passed, failed=failed, tail=out[-3000:])
+
+
 def confirm(src, sid):
     prop = sid.split("-")[0]
     ensure_wt()
-    feats = ""
-    notes = open(os.path.join(src, "notes.md")).read() if os.path.exists(os.path.join(src, "notes.md")) else ""
     demo = open(os.path.join(src, "demo.rs")).read()
-    if "x509_parser" in demo or "from_ca_cert_der" in demo or "CertificateSigningRequestParams" in demo:
-        feats = "--features rcgen/x509-parser"
-    shutil.copy(os.path.join(src, "demo.rs"), os.path.join(WT, "rcgen/tests/demo_mutant.rs"))
-    base = cargo_test(feats)
-    ok_base = base["compiled"] and not base["failed"] and base["rc"] == 0
+    if "aws_lc_rs" in demo or "aws-lc-rs" in demo:
+        feats = "--no-default-features --features aws_lc_rs,pem,x509-parser"
+    elif "x509_parser" in demo or "x509-parser" in demo or "from_ca_cert" in demo or "CertificateSigningRequestParams" in demo:
+        feats = "--features x509-parser"
+    else:
+        feats = ""
+    demo_path = os.path.join(WT, "rcgen/tests/demo_mutant.rs")
+    # unchanged tree: the demonstration passes
+    shutil.copy(os.path.join(src, "demo.rs"), demo_path)
+    b = demo_run(feats)
+    base = dict(b, other_failed=[], demo_failed=bool(b["failed"]))
+    ok_base = b["compiled"] and not b["failed"] and b["rc"] == 0 and b["passed"] > 0
     rc, out = sh(f"git apply {os.path.abspath(os.path.join(src, 'patch.diff'))}", cwd=WT)
     if rc:
         print("patch does not apply:", out)
         return False
-    mut = cargo_test(feats)
+    # with the patch: the demonstration fails ...
+    d = demo_run(feats)
+    # ... and the existing suite, without the demonstration file, passes (both feature sets)
+    os.remove(demo_path)
+    m1 = cargo_test("")
+    m2 = cargo_test("--features rcgen/x509-parser")
+    mut = dict(compiled=d["compiled"] and m1["compiled"] and m2["compiled"], passed=m1["passed"] + m2["passed"],
+               failed=d["failed"], demo_failed=bool(d["failed"]) and d["compiled"],
+               other_failed=m1["failed"] + m2["failed"] + ([] if m1["rc"] == 0 and m2["rc"] == 0 else ["suite rc != 0"] if not (m1["failed"] + m2["failed"]) else []),
+               tail=d["tail"] if not d["failed"] else (m1["tail"] if m1["rc"] else m2["tail"]))
     ok_mut = mut["compiled"] and mut["demo_failed"] and not mut["other_failed"]
     files = sh("git diff --stat", cwd=WT)[1]
     sh("git checkout -- . && rm -f rcgen/tests/demo_mutant.rs", cwd=WT)
@@ -99,7 +122,7 @@ def confirm(src, sid):
         source="fresh sub-agent given only the property text and a scratch worktree",
         needs_to_manifest="",  # filled in by hand from notes.md
         confirmed=dict(
-            cmd=f"cargo test --workspace --offline --no-fail-fast {feats}".strip(),
+            cmd=f"demo: cargo test --offline -p rcgen {feats} --test demo_mutant; suite: cargo test --workspace --offline --no-fail-fast [--features rcgen/x509-parser]",
             unchanged_tree=dict(passed=base["passed"], failed=base["failed"]),
             with_patch=dict(passed=mut["passed"], failed=mut["failed"],
                             existing_tests_failed=mut["other_failed"]),
